@@ -175,7 +175,9 @@ def run(ctx):
     if rc != 0:
         raise RuntimeError("Cases14.vo does not build: " + mout[-2000:])
     tb = vlib.std_trusted_base(pa, [
-        "translator harness/cmd/purltypes (go/ast over purl/purl.go and extractor/**/*.go; emits plain data)",
+        "translator harness/cmd/purltypes: go/ast only for the Type* const declarations, the purl.Type* references under extractor/, the "
+        "metadata type switch of package binary/proto and the Metadata values in extractor sources; the accepted purl types are "
+        "OBSERVED by running purl.FromString of the repository under test on every declared type (and upper-case / unknown probes)",
         "Go harness harness/cmd/convert (drives the real filesystem.Run, ToPURL, Ecosystem, purl.FromString, packageindex, "
         "proto.ScanResultToProto, converter.ToSPDX23/ToCDX; strips random UUIDs, numbers package pointers by position)",
         "Section hypothesis codec_law: packageurl-go FromString(ToString p) = norm p (validated on every purl of this run)",
